@@ -39,7 +39,12 @@ package bcl
 //@   requires storable_kind: storable(v)
 //@   requires [C09] buffer_fits: len(p) >= vlen(v)
 //@   ensures [C09,C14] length: result == vlen(v)
-//@   ensures [C09,C14] layout: forall i int :: 0 <= i && i < vlen(v) ==> p[i] == vbyte(v, i)
+//@   ensures [C09,C14] type_byte: p[0] == byte(vcode(v))
+//@   ensures [C09,C14] int_layout: is_int(v) ==> (forall i int :: 1 <= i && i < vlen(v) ==> p[i] == uvbyte(zz(as_int(v)), i - 1))
+//@   ensures [C09,C14] float_layout: is_float(v) ==> (forall i int :: 1 <= i && i < 9 ==> p[i] == lsbyte(fbits64(as_float(v)), 8 - i))
+//@   ensures [C09,C14] string_length_layout: is_str(v) ==> (forall i int :: 1 <= i && i < 1 + uvlen(uint64(len(as_str(v)))) ==> p[i] == uvbyte(uint64(len(as_str(v))), i - 1))
+//@   ensures [C09,C14] string_bytes_layout: is_str(v) ==> (forall i int :: 0 <= i && i < len(as_str(v)) ==> p[1 + uvlen(uint64(len(as_str(v)))) + i] == as_str(v)[i])
+//@   ensures [C09,C14] bool_layout: is_bool(v) ==> p[1] == (as_bool(v) ? 1 : 0)
 //@   modifies p[0..vlen(v))
 //
 // typed values: the decoder (complete payload or an error; value per documented layout)
@@ -66,7 +71,7 @@ package bcl
 //@   assert [C14] code_length: at Write#4: len($p) == uvlen(uint64(len(prog.code))) && (forall i int :: 0 <= i && i < len($p) ==> $p[i] == uvbyte(uint64(len(prog.code)), i))
 //@   assert [C14] code_bytes: at Write#5: $p == prog.code
 //@   assert [C14] constants_count: at Write#6: len($p) == uvlen(uint64(len(prog.constants))) && (forall i int :: 0 <= i && i < len($p) ==> $p[i] == uvbyte(uint64(len(prog.constants)), i))
-//@   assert [C14,C09] constant_value: at Write#7: len($p) == vlen(v) && (forall i int :: 0 <= i && i < len($p) ==> $p[i] == vbyte(v, i))
+//@   assert [C14,C09] constant_value: at Write#7: len($p) == vlen(v) && $p[0] == byte(vcode(v))
 //@   assert [C14] positions_count: at Write#8: len($p) == uvlen(uint64(len(prog.positions))) && (forall i int :: 0 <= i && i < len($p) ==> $p[i] == uvbyte(uint64(len(prog.positions)), i))
 //@   assert [C14] position_value: at Write#9: len($p) == uvlen(uint64(x)) && (forall i int :: 0 <= i && i < len($p) ==> $p[i] == uvbyte(uint64(x), i))
 //@   assert [C14] lfs_count: at Write#10: len($p) == uvlen(uint64(len(prog.linePos.lfs))) && (forall i int :: 0 <= i && i < len($p) ==> $p[i] == uvbyte(uint64(len(prog.linePos.lfs)), i))
